@@ -47,7 +47,7 @@ func runBeaconClean(r *core.Run)  { core.Bubble(r, func(t *testing.T) { runBeaco
 func runBeaconFaulty(r *core.Run) { core.Bubble(r, func(t *testing.T) { runBeacon(r, true) }) }
 
 func (w *beaconWorld) open() {
-	b, err := bsqlite.New(w.loc.path, iaPool[0], &db.SqliteConfig{InMemory: w.loc.mem, MaxOpenReadConns: 2})
+	b, err := bsqlite.New(w.loc.path, localIA, &db.SqliteConfig{InMemory: w.loc.mem, MaxOpenReadConns: 2})
 	if err != nil {
 		panic(core.InfraError{Msg: "open beacon db: " + err.Error()})
 	}
@@ -113,7 +113,7 @@ func opFailed(r *core.Run, what string, err error, dead bool) {
 		r.Logf("  %s failed under ctx fault", what)
 		return
 	}
-	r.Fail("c27-op-error", "op-error:"+what, "%s failed without an injected fault: %v", what, err)
+	r.Fail("c27-op-error", "op-error:"+what, "%s failed without an injected fault: %v", what, errText(err))
 }
 
 func (w *beaconWorld) opInsert(i int) {
@@ -145,7 +145,7 @@ func (w *beaconWorld) opInsert(i int) {
 	st, err := w.db.InsertBeacon(ctx, beacon.Beacon{Segment: v.seg, InIfID: v.shape.inIf}, usage)
 	if err != nil {
 		opFailed(r, "InsertBeacon", err, dead)
-		w.fullCheck("after failed insert")
+		w.segCheck(v.shape, "after failed insert")
 		return
 	}
 	wantIns, wantUpd := 0, 0
@@ -175,7 +175,33 @@ func (w *beaconWorld) opInsert(i int) {
 			v, class, st.Inserted, st.Updated, wantIns, wantUpd)
 		return
 	}
-	w.fullCheck("after insert")
+	w.segCheck(v.shape, "after insert")
+}
+
+// segCheck looks the one segment id up and compares it with the reference (the complete content is
+// compared after deletions, clean-ups, faults and at the end).
+func (w *beaconWorld) segCheck(sh *shape, when string) {
+	r := w.r
+	if r.Failed() {
+		return
+	}
+	res, err := w.db.GetBeacons(context.Background(), &storagebeacon.QueryParams{SegIDs: [][]byte{sh.id}})
+	if err != nil {
+		r.Fail("c27-op-error", "op-error:GetBeacons", "GetBeacons failed: %v", errText(err))
+		return
+	}
+	var got []string
+	for _, b := range res {
+		got = append(got, w.entryOf(b.Beacon, b.Usage))
+	}
+	must := map[string]bool{}
+	if e := w.m[sh.idHex]; e != nil {
+		must[e.String()] = true
+	}
+	if d := diffSets(got, must, nil); d != "" {
+		r.Fail("c27-state-mismatch", "beacon-state", "stored entry of beacon s%d %s differs from the reference: %s\n got  %v\n want %v",
+			sh.idx, when, d, got, sortedStrings(must))
+	}
 }
 
 // entryOf identifies a returned beacon with a pool version.
@@ -195,7 +221,7 @@ func (w *beaconWorld) fullCheck(when string) {
 	}
 	res, err := w.db.GetBeacons(context.Background(), nil)
 	if err != nil {
-		r.Fail("c27-op-error", "op-error:GetBeacons", "GetBeacons(nil) failed: %v", err)
+		r.Fail("c27-op-error", "op-error:GetBeacons", "GetBeacons(nil) failed: %v", errText(err))
 		return
 	}
 	var got []string
@@ -540,7 +566,7 @@ func (w *beaconWorld) opRestart(i int) {
 	r.Fault("db.restart")
 	r.Logf("#%d restart", i)
 	if err := w.db.Close(); err != nil {
-		r.Fail("c27-op-error", "op-error:Close", "Close failed: %v", err)
+		r.Fail("c27-op-error", "op-error:Close", "Close failed: %v", errText(err))
 	}
 	w.open()
 	w.fullCheck("after restart")
